@@ -158,7 +158,8 @@ Definition history_ok (pl : list ev_plugin) (sigma : list tk_req) (log : list (N
 Inductive fault_kind :=
 | FVeto (msg : string)                 (* the handler returns an error *)
 | FTransport (reply_complete : bool)   (* cut / close; true: only after the plugin's reply had gone through completely *)
-| FHang.                               (* no answer within the request time-out *)
+| FHang                                (* no answer within the request time-out *)
+| FStall.                              (* the peer stops reading while a request larger than the socket buffers is written *)
 
 (* the observation of one faulted request and of the request that follows it *)
 Record fault_obs := {
@@ -189,7 +190,7 @@ Definition fault_ok (plugins : list (N * string * string)) (faulty : N) (ev : Z)
       (fo_nil o || negb (returns_value ev)) &&
       leqb String.eqb (fo_tokens o) [] &&
       leqb N.eqb (not_faulty (fo_handled o)) before_faulty
-  | FTransport _ | FHang =>
+  | FTransport _ | FHang | FStall =>
       (* the request succeeds with the intact contributions of the others (and the faulty
          plugin's own only if its reply had gone through), in time; afterwards the plugin
          gets nothing and requests still work *)
